@@ -28,6 +28,8 @@ pub type KdTree2 = crate::common::kd_tree::KdTree<2>;
 pub use self::aabb2::Aabb2;
 pub use self::angles2::{directed_angle, rot270, rot90, signed_angle};
 pub use self::circle2::{Arc2, Circle2};
+#[cfg(feature = "verif")]
+pub use self::circle2::verif as circle2_verif;
 pub use self::curve2::{Curve2, CurveStation2};
 pub use self::line2::{intersect_rays, intersection_param, Line2, Segment2};
 
